@@ -2322,6 +2322,24 @@ func buildAckRanges(entries []*shareAckState, gaps []shareAckRange) (ranges []sh
 	slices.SortFunc(gaps, func(a, b shareAckRange) int {
 		return cmp.Compare(a.firstOffset, b.firstOffset)
 	})
+	// Dedupe gaps: a gap that was requeued after a retriable acknowledge
+	// error can be enqueued a second time when the same offsets are
+	// acquired again; two batches covering the same offsets are rejected
+	// by the broker for the whole partition.
+	if len(gaps) > 1 {
+		kept := gaps[:1]
+		for _, g := range gaps[1:] {
+			last := &kept[len(kept)-1]
+			if g.firstOffset <= last.lastOffset {
+				if g.lastOffset > last.lastOffset {
+					last.lastOffset = g.lastOffset
+				}
+				continue
+			}
+			kept = append(kept, g)
+		}
+		gaps = kept
+	}
 	// Dedupe: a single record can have multiple entries for the same offset
 	// (e.g. Ack(AckRenew) then Ack(AckAccept) both append; the terminal
 	// CAS overwrites the renew but the renew entry remains in the slice).
